@@ -99,6 +99,8 @@ def run(e: Engine, rep: Report):
     r110(e, rep)
     from . import poolorder
     poolorder.run(e, rep, 'R1.11')
+    from . import storeback
+    storeback.run(e, rep, 'R1.13')
     rep.floor('R1.2', 5, 'removal sites')
     rep.floor('R1.5', 3, 'backend uses of the index argument')
 
